@@ -1,1 +1,312 @@
-"""(rules registered here)"""
+"""Framework shape rules on automata.py: R-SENT (net symbol accounting), R-LIMIT (limit/ending chain), R-REPEAT (repeat loop),
+R-PROGRESS (no-progress guards)."""
+import ast
+
+from .core import ( rule, Result, AnalysisError, dotted, call_name, is_call_to, names_in, attrs_in, walk_no_nested,
+                    norm_text, dotted_in, stmt_of, pmatch, pfind, txt )
+from .fold import try_fold
+from .cfg import CFG, INF
+
+AUTOMATA = 'automata.py'
+
+
+def _calls_only( node ):
+    if node is None:
+        return False
+    return any( isinstance( n, ( ast.Call, ast.Raise )) for n in ast.walk( node ))
+
+
+def _sent_effects( cfg, sign ):
+    out = []
+    for n in cfg.nodes:
+        if n.kind == 'stmt' and isinstance( n.stmt, ast.AugAssign ) and dotted( n.stmt.target ) == 'self._sent' and try_fold( n.stmt.value ) == 1:
+            if ( sign > 0 and isinstance( n.stmt.op, ast.Add )) or ( sign < 0 and isinstance( n.stmt.op, ast.Sub )):
+                out.append( n )
+    return out
+
+
+@rule( 'R-SENT', props=( 'C10', 'C02' ), floor=6 )
+def r_sent( ctx ):
+    """peeking/chaining: every path of __next__ that returns an item increments _sent exactly once, raising paths never; push appends and decrements once; peek is net zero"""
+    res = Result( 'R-SENT' )
+    src = ctx.src( AUTOMATA )
+    for qn in ( 'peeking.__next__', 'chaining.__next__' ):
+        fn = src.get( qn )
+        cfg = CFG( fn, may_raise=_calls_only )
+        incs = _sent_effects( cfg, +1 )
+        decs = _sent_effects( cfg, -1 )
+        other = [ n for n in cfg.nodes if n.kind == 'stmt' and isinstance( n.stmt, ( ast.Assign, ast.AugAssign ))
+                  and any( dotted( t ) == 'self._sent' for t in ( n.stmt.targets if isinstance( n.stmt, ast.Assign ) else [ n.stmt.target ] ))
+                  and n not in incs ]
+        for o in other:
+            res.bad( src, o.stmt, o.stmt, '%s may only increment _sent by one' % qn )
+        rets = [ n for n in cfg.nodes if n.kind == 'stmt' and isinstance( n.stmt, ast.Return ) and n.stmt.value is not None ]
+        if not rets:
+            raise AnalysisError( '%s: no return of an item' % qn )
+        cnt = cfg.effect_counts( cfg.entry, incs, rets + [ cfg.raise_exit ], cut_back=True )
+        for r in rets:
+            if r not in cnt:
+                continue
+            if cnt[r] == ( 1, 1 ):
+                res.ok( src, r.stmt, '%s: `%s` is reached with _sent incremented exactly once' % ( qn, norm_text( r.stmt )))
+            else:
+                res.bad( src, r.stmt, '%s: _sent incremented %s..%s times before `%s`' % ( qn, cnt[r][0], cnt[r][1], norm_text( r.stmt )),
+                         'every symbol delivered must be counted exactly once: all limits are computed from source.sent' )
+        if cfg.raise_exit in cnt:
+            if cnt[cfg.raise_exit][1] == 0:
+                res.ok( src, fn, '%s: no exception path counts a symbol' % qn )
+            else:
+                res.bad( src, fn, '%s: an exception path increments _sent' % qn, 'a symbol that was not delivered must not be counted' )
+        # the item comes from the push-back stack first, then the iterator
+        if pfind( fn, 'self._back.pop() if self._back else next( self._iter )' ):
+            res.ok( src, fn, '%s: pushed-back symbols are delivered before new ones' % qn )
+        else:
+            res.bad( src, fn, qn, 'pushed-back symbols must be re-delivered (LIFO) before reading the iterator' )
+    # chaining: the chained queue is FIFO: insert( 0, x ) and consume from the end
+    ch = src.get( 'chaining.chain' ); nx = src.get( 'chaining.__next__' )
+    if pfind( ch, 'self._chain.insert( 0, _i )' ) and pfind( nx, 'iter( self._chain[-1] )' ) and pfind( nx, 'self._chain.pop()' ):
+        res.ok( src, ch, 'chained blocks are consumed in arrival order (insert at 0, take from the end)' )
+    elif pfind( ch, 'self._chain.append( _i )' ) and pfind( nx, 'iter( self._chain[0] )' ) and pfind( nx, 'self._chain.pop( 0 )' ):
+        res.ok( src, ch, 'chained blocks are consumed in arrival order (append, take from the front)' )
+    else:
+        res.bad( src, ch, 'chaining.chain / __next__', 'received blocks must be consumed in the order they were chained' )
+    # push
+    pu = src.get( 'peeking.push' )
+    cfg = CFG( pu, may_raise=_calls_only )
+    decs = _sent_effects( cfg, -1 ); apps = [ n for n in cfg.nodes if n.kind == 'stmt' and pmatch( n.stmt, 'self._back.append( _i )' ) ]
+    cnt_d = cfg.effect_counts( cfg.entry, decs, [ cfg.exit ], cut_back=True ).get( cfg.exit )
+    cnt_a = cfg.effect_counts( cfg.entry, apps, [ cfg.exit ], cut_back=True ).get( cfg.exit )
+    if cnt_d == ( 1, 1 ) and cnt_a == ( 1, 1 ) and not _sent_effects( cfg, +1 ):
+        res.ok( src, pu, 'push: one append to the push-back stack and one decrement of _sent' )
+    else:
+        res.bad( src, pu, 'peeking.push: append %s, decrement %s' % ( cnt_a, cnt_d ), 'a pushed-back symbol must be stacked once and un-counted once' )
+    # peek: net zero = only touches _sent through push( next( self ))
+    pk = src.get( 'peeking.peek' )
+    direct = [ n for n in ast.walk( pk ) if isinstance( n, ( ast.AugAssign, ast.Assign )) and '_sent' in attrs_in( n ) ]
+    via = pfind( pk, 'self.push( next( self ))' )
+    nexts = [ c for c in ast.walk( pk ) if is_call_to( c, 'next' ) ]
+    if not direct and via and len( nexts ) == len( via ) and pfind( pk, 'self._back[-1]' ):
+        res.ok( src, pk, 'peek: reads ahead only through push( next( self )) (net zero) and returns the top of the stack' )
+    else:
+        res.bad( src, pk, 'peeking.peek', 'peek must not change the net count: every look-ahead next() must be pushed back' )
+    # the property sent
+    se = src.get( 'peeking.sent' )
+    if pfind( se, 'return self._sent' ):
+        res.ok( src, se, 'sent = _sent', nontrivial=False )
+    else:
+        res.bad( src, se, 'peeking.sent', 'sent must report the net count _sent' )
+    # remembering.push is consistent with memory and delegates
+    rp = src.get( 'remembering.push', required=False )
+    if rp is not None:
+        if any( is_call_to( c, 'push' ) and isinstance( c.func, ast.Attribute ) and is_call_to( c.func.value, 'super' ) for c in ast.walk( rp )):
+            res.ok( src, rp, 'remembering.push delegates to the counting push' )
+        else:
+            res.bad( src, rp, 'remembering.push', 'must delegate to peeking.push so the symbol is un-counted' )
+    return res
+
+
+@rule( 'R-LIMIT', props=( 'C10', 'C08' ), floor=7 )
+def r_limit( ctx ):
+    """state.run/transition/delegate: the absolute `ending` may only shrink, is forwarded to delegate and transition, and a limited state follows None transitions only"""
+    res = Result( 'R-LIMIT' )
+    src = ctx.src( AUTOMATA )
+    run = src.get( 'state.run' )
+    # every store to `ending` in run is only-shrinks
+    stores = [ s for s in walk_no_nested( run ) if isinstance( s, ( ast.Assign, ast.AugAssign ))
+               and any( dotted( t ) == 'ending' for t in ( s.targets if isinstance( s, ast.Assign ) else [ s.target ] )) ]
+    if not stores:
+        res.bad( src, run, 'state.run', 'a state limit is never turned into an ending' )
+    for s in stores:
+        par = src.parent.get( s )
+        v = s.value
+        shrink = False
+        if is_call_to( v, 'min' ) and any( dotted( a ) == 'ending' for a in v.args ):
+            shrink = True; how = 'min( ending, ... )'
+        elif isinstance( par, ast.If ) and s in par.body:
+            t = par.test
+            vt = txt( v )
+            for pat in ( 'ending is None or %s < ending', 'ending is None or %s <= ending', 'ending is None or ending > %s', 'ending is None or ending >= %s' ):
+                if pmatch( t, pat % ast.unparse( v )):
+                    shrink = True; how = norm_text( t )
+        if shrink:
+            res.ok( src, s, 'ending only shrinks: %s' % how )
+        else:
+            res.bad( src, s, ( 'if %s: ' % norm_text( par.test ) if isinstance( par, ast.If ) else '' ) + norm_text( s ),
+                     'a nested limit may only reduce the ending inherited from the enclosing parser, never extend it' )
+        # the value is sent + limit
+        if pmatch( v, 'source.sent + limit' ) or pmatch( v, 'limit + source.sent' ) or ( is_call_to( v, 'min' ) and 'source.sent+limit' in txt( v )):
+            res.ok( src, s, 'ending = source.sent + limit (absolute position)' )
+        else:
+            res.bad( src, s, s, 'the ending must be the absolute position source.sent + limit' )
+    # limit resolution: string -> data.get( context( path, limit ), 0 ); callable -> call; int assert
+    if pfind( run, 'limit = data.get( limit_src, 0 )' ) and pfind( run, 'limit_src = self.context( path, limit_src )' ):
+        res.ok( src, run, 'string limit resolved relative to the state context, default 0' )
+    else:
+        res.bad( src, run, 'state.run limit resolution', 'a data-path limit must be resolved through self.context( path, limit )' )
+    ints = [ a for a in ast.walk( run ) if isinstance( a, ast.Assert ) and pmatch( a.test, 'isinstance( limit, int )' ) ]
+    if ints:
+        res.ok( src, ints[0], 'assert isinstance( limit, int )' )
+    else:
+        res.bad( src, run, 'state.run', 'a resolved limit must be checked to be an int' )
+    # forwarded to delegate and transition
+    for callee in ( 'self.delegate', 'self.transition' ):
+        calls = [ c for c in ast.walk( run ) if is_call_to( c, callee ) ]
+        if calls and all( any( k.arg == 'ending' and dotted( k.value ) == 'ending' for k in c.keywords ) for c in calls ):
+            res.ok( src, calls[0], '%s( ..., ending=ending )' % callee )
+        else:
+            res.bad( src, calls[0] if calls else run, '%s call' % callee, 'the ending must be passed to %s' % callee )
+    # post-run assertion
+    post = [ a for a in ast.walk( run ) if isinstance( a, ast.Assert ) and ( pmatch( a.test, 'source.sent <= ending' ) or pmatch( a.test, 'ending >= source.sent' )) ]
+    if post:
+        res.ok( src, post[0], 'post-run assert source.sent <= ending' )
+    else:
+        res.bad( src, run, 'state.run', 'the post-run assertion sent <= ending is missing (overrun would go unnoticed)' )
+    # transition: limited => lookup key None
+    tr = src.get( 'state.transition' )
+    lim = [ s for s in walk_no_nested( tr ) if isinstance( s, ast.Assign ) and dotted( s.targets[0] ) == 'limited' ]
+    good = False
+    for s in lim:
+        if pmatch( s.value, 'ending is not None and source.sent >= ending' ) or pmatch( s.value, 'ending is not None and ending <= source.sent' ):
+            good = True
+            res.ok( src, s, 'limited = ending is not None and source.sent >= ending' )
+        else:
+            c = [ x for x in ast.walk( s.value ) if isinstance( x, ast.Compare ) and 'ending' in names_in( x ) and 'sent' in attrs_in( x ) ]
+            res.bad( src, s, s, 'a state is limited as soon as source.sent >= ending (`>` lets one symbol past the limit)' )
+    if not lim:
+        res.bad( src, tr, 'state.transition', 'no `limited` computation from ending' )
+    inp = pfind( tr, 'inp = None if limited else source.peek()' ) + pfind( tr, 'inp = source.peek() if not limited else None' )
+    if inp:
+        res.ok( src, inp[0][0], 'a limited state looks up the None transition only' )
+    else:
+        res.bad( src, tr, 'state.transition input selection', 'once limited, only no-input (None) transitions may be followed' )
+    # the limited computation must precede the loop (computed from this state's post-processing position)
+    dl = src.get( 'dfa_base.delegate' )
+    runs = [ c for c in ast.walk( dl ) if is_call_to( c, 'self.current.run' ) ]
+    if runs and all( any( k.arg == 'ending' and dotted( k.value ) == 'ending' for k in c.keywords ) for c in runs ):
+        res.ok( src, runs[0], 'dfa_base.delegate forwards ending to the sub-state run' )
+    else:
+        res.bad( src, runs[0] if runs else dl, 'self.current.run( ... )', 'the sub-machine must inherit the ending of its dfa' )
+    return res
+
+
+@rule( 'R-REPEAT', props=( 'C10', ), floor=5 )
+def r_repeat( ctx ):
+    """dfa_base.delegate: cycle reset before the loop, incremented exactly once per cycle, loop while cycle < final, terminal only after the last cycle"""
+    res = Result( 'R-REPEAT' )
+    src = ctx.src( AUTOMATA )
+    dl = src.get( 'dfa_base.delegate' )
+    loops = [ w for w in dl.body if isinstance( w, ast.While ) ]
+    if len( loops ) != 1:
+        raise AnalysisError( 'dfa_base.delegate: outer cycle loop not found' )
+    lp = loops[0]
+    if pmatch( lp.test, 'self.loop() and not stasis' ) or pmatch( lp.test, 'not stasis and self.loop()' ):
+        res.ok( src, lp, 'cycle loop runs while self.loop() and not stasis' )
+    else:
+        res.bad( src, lp, lp.test, 'the cycle loop must run while self.loop() (cycles remain) and no stasis' )
+    before = [ s for s in dl.body[:dl.body.index( lp )] ]
+    if any( pmatch( s, 'self.cycle = 0' ) for s in before ):
+        res.ok( src, dl, 'self.cycle = 0 before the loop' )
+    else:
+        res.bad( src, dl, 'dfa_base.delegate', 'cycle must be reset to 0 at the start of each delegate' )
+    cfg = CFG( dl, may_raise=_calls_only )
+    incs = [ n for n in cfg.nodes if n.kind == 'stmt' and isinstance( n.stmt, ast.AugAssign ) and dotted( n.stmt.target ) == 'self.cycle' ]
+    h = cfg.node_of( lp )
+    first = [ m for m, l in cfg.succ[h] if l == 'true' ]
+    backs = [ p for p, l in cfg.pred[h] if l in ( 'back', 'continue' ) ]
+    bad_inc = [ n for n in incs if not ( isinstance( n.stmt.op, ast.Add ) and try_fold( n.stmt.value ) == 1 ) ]
+    for b in bad_inc:
+        res.bad( src, b.stmt, b.stmt, 'cycle must advance by exactly one' )
+    cnt = cfg.effect_counts( first[0], incs, backs, cut_back=True, skip_labels=( 'exc', )) if first and backs else {}
+    if cnt and all( v == ( 1, 1 ) for v in cnt.values() ):
+        res.ok( src, lp, 'self.cycle += 1 exactly once per completed cycle' )
+    else:
+        res.bad( src, lp, 'self.cycle increments per cycle: %s' % sorted( set( cnt.values() )), 'a repeat count must make the sub-grammar run exactly that many times' )
+    others = [ s for s in ast.walk( dl ) if isinstance( s, ast.Assign ) and any( dotted( t ) == 'self.cycle' for t in s.targets ) and s not in before ]
+    for o in others:
+        res.bad( src, o, o, 'cycle may only be reset before the loop' )
+    lf = src.get( 'dfa_base.loop' )
+    if pfind( lf, 'return self.cycle < self.final' ):
+        res.ok( src, lf, 'loop() = cycle < final' )
+    else:
+        res.bad( src, lf, 'dfa_base.loop', 'cycles remain exactly while cycle < final' )
+    tm = src.get( 'dfa_base.terminal' )
+    r = [ s for s in tm.body if isinstance( s, ast.Return ) ]
+    if r and isinstance( r[0].value, ast.BoolOp ) and isinstance( r[0].value.op, ast.And ) \
+       and { txt( v ) for v in r[0].value.values } >= { 'self._terminal', 'self.current.terminal', 'notself.loop()' }:
+        res.ok( src, tm, 'terminal = own flag and sub-machine terminal and no cycles remaining' )
+    else:
+        res.bad( src, tm, r[0].value if r else 'terminal', 'a dfa is terminal only when flagged, its sub-machine is terminal and all cycles are done' )
+    # repeat resolution
+    if pfind( dl, 'self.final = data.get( final_src, 0 )' ) and pfind( dl, 'final_src = self.context( path, final_src )' ):
+        res.ok( src, dl, 'string repeat resolved relative to the dfa context, default 0' )
+    else:
+        res.bad( src, dl, 'repeat resolution', 'a data-path repeat must be resolved through self.context( path, repeat )' )
+    if any( pmatch( s, 'self.reset()' ) for s in lp.body ):
+        res.ok( src, lp, 'sub-machine reset to initial at the start of every cycle' )
+    else:
+        res.bad( src, lp, 'cycle loop', 'each cycle must restart the sub-machine at its initial state' )
+    return res
+
+
+@rule( 'R-PROGRESS', props=( 'C08', 'C02' ), floor=4 )
+def r_progress( ctx ):
+    """the three no-progress guards (accept loop, transition loop, delegate stasis) compare (state, next symbol, sent) crumbs; non-terminal stop raises NonTerminal"""
+    res = Result( 'R-PROGRESS' )
+    src = ctx.src( AUTOMATA )
+    run = src.get( 'state.run' ); dl = src.get( 'dfa_base.delegate' )
+    def crumb_ok( v ):
+        return isinstance( v, ast.Tuple ) and len( v.elts ) == 3 and txt( v.elts[1] ) == 'source.peek()' and txt( v.elts[2] ) == 'source.sent'
+    # 1. accept loop
+    acc = [ w for w in walk_no_nested( run ) if isinstance( w, ast.While ) and is_call_to( getattr( w.test, 'operand', None ), 'self.accepts' ) ]
+    if len( acc ) != 1:
+        raise AnalysisError( 'state.run: accept loop not found' )
+    body = acc[0].body
+    cr = [ s for s in body if isinstance( s, ast.Assign ) and crumb_ok( s.value ) ]
+    chk = [ s for s in body if isinstance( s, ast.Assert ) and cr and pmatch( s.test, '%s not in seen' % cr[0].targets[0].id ) ] if cr else []
+    addd = [ s for s in body if cr and pmatch( s, 'seen.add( %s )' % cr[0].targets[0].id ) ] if cr else []
+    yl = [ s for s in body if isinstance( s, ast.Expr ) and isinstance( s.value, ast.Yield ) ]
+    if cr and chk and addd and yl and body.index( chk[0] ) < body.index( addd[0] ) < body.index( yl[0] ):
+        res.ok( src, acc[0], 'accept loop: crumb (None, peek, sent) asserted unseen, recorded, then yield' )
+    else:
+        res.bad( src, acc[0], 'state.run accept loop', 'waiting for an acceptable symbol must fail when (next symbol, sent) repeats: otherwise hostile input spins forever' )
+    # 2. transition loop
+    trl = [ f for f in walk_no_nested( run ) if isinstance( f, ast.For ) and is_call_to( f.iter, 'self.transition' ) ]
+    if len( trl ) != 1:
+        raise AnalysisError( 'state.run: transition loop not found' )
+    body = trl[0].body
+    cr = [ s for s in body if isinstance( s, ast.Assign ) and crumb_ok( s.value ) ]
+    brk = [ s for s in body if isinstance( s, ast.If ) and cr and pmatch( s.test, '%s in seen' % cr[0].targets[0].id ) and any( isinstance( b, ( ast.Break, ast.Raise, ast.Return )) for b in s.body ) ]
+    addd = [ s for s in body if cr and pmatch( s, 'seen.add( %s )' % cr[0].targets[0].id ) ]
+    if cr and brk and addd:
+        res.ok( src, trl[0], 'transition loop: leaves when crumb (state, peek, sent) repeats' )
+    else:
+        res.bad( src, trl[0], 'state.run transition loop', 'repeating (state, next symbol, sent) must end the transition loop' )
+    # 3. delegate stasis
+    cr = [ s for s in ast.walk( dl ) if isinstance( s, ast.Assign ) and crumb_ok( s.value ) ]
+    st = [ s for s in ast.walk( dl ) if isinstance( s, ast.Assign ) and dotted( s.targets[0] ) == 'stasis' and cr and pmatch( s.value, '%s in seen' % cr[0].targets[0].id ) ]
+    ifs = [ s for s in ast.walk( dl ) if isinstance( s, ast.If ) and pmatch( s.test, 'stasis' ) and any( isinstance( b, ast.Break ) for b in s.body )
+            and any( pmatch( b, 'done = True' ) for b in s.body ) ]
+    addd = [ s for s in ast.walk( dl ) if cr and pmatch( s, 'seen.add( %s )' % cr[0].targets[0].id ) ]
+    if cr and st and ifs and addd:
+        res.ok( src, st[0], 'delegate: stasis = crumb in seen -> done, break; outer loop stops on stasis' )
+    else:
+        res.bad( src, dl, 'dfa_base.delegate stasis detection', 'the sub-machine loop must stop when (target, next symbol, sent) repeats' )
+    seeds = pfind( dl, 'seen = set( [ ( self.current, source.peek(), source.sent ) ] )' )
+    if seeds:
+        res.ok( src, seeds[0][0], 'delegate: seen seeded with the entry crumb each cycle' )
+    else:
+        res.bad( src, dl, 'delegate seen initialisation', 'the crumb set must be re-seeded with the entry crumb at the start of every cycle' )
+    # NonTerminal
+    nt = [ s for s in ast.walk( dl ) if isinstance( s, ast.If ) and pmatch( s.test, 'not self.current.terminal' )
+           and any( isinstance( b, ast.Raise ) and 'NonTerminal' in txt( b ) for b in s.body ) ]
+    if nt:
+        res.ok( src, nt[0], 'a cycle ending in a non-terminal state raises NonTerminal' )
+    else:
+        res.bad( src, dl, 'dfa_base.delegate', 'ending a cycle in a non-terminal state must raise NonTerminal (input rejected, not absorbed)' )
+    # `if not transit: done = True`: each state is run once unless re-entered
+    once = [ s for s in ast.walk( dl ) if isinstance( s, ast.If ) and pmatch( s.test, 'not transit' ) and any( pmatch( b, 'done = True' ) for b in s.body ) ]
+    if once:
+        res.ok( src, once[0], 'a state that produced no transition ends the cycle (never re-processed)' )
+    else:
+        res.bad( src, dl, 'dfa_base.delegate', 'a sub-state that cannot transition must end the cycle, not be re-run (it would consume again)' )
+    return res
